@@ -542,12 +542,17 @@ def p_c17(tier):
                     sh.append(thr(ring, 3, 3, opset, 2, i, 4))
         for i in range(16):
             sh.append(thr(2, 3, 2, 0, 3, i, 16))
+        # auxiliary, not deciding: the same bodies free-running under ThreadSanitizer (sampling)
+        for ring in (1, 2, 8):
+            for prod in (2, 3, 4):
+                sh.append({"tag": "tsanaux-r%d-p%d" % (ring, prod), "bin": "tsanaux_r%d" % ring, "args": ["--prop", "C17", "--iters", 400, "--producers", prod]})
     return {"shards": sh, "require": ["runs"], "deadline": 150 if quick else 1500,
             "technique": "stateless model checking of real threads: all schedules up to a preemption bound under a semaphore hand-off scheduler over the library's mutex interface, with a page-protection lockset oracle; schedules reaching an already visited (memory, thread positions, preemption count) state are not expanded again",
             "bounds": ("2-3 producer threads x 2-3 operations (trigger, is_full, is_busy, is_hold, hold_exit mixes) + service thread over a held and a plain command with write back-pressure; preemption bound 2; queue capacity 1,2"
                        if quick else "2 producers x 4 operations at preemption bound 3 and 3 producers x 3 operations at bound 2, four operation mixes, queue capacity 1,2,3,8; 3 producers x 2 operations at bound 3"),
             "rule": "every case is one complete schedule of the real threads; distinct = distinct final outcomes (output bytes, accepted/refused/delivered counts)",
             "assumptions": ["the user's lock provides mutual exclusion with acquire/release ordering; memory orderings below the mutex are not modelled",
+                            "thorough tier also runs an auxiliary free-running ThreadSanitizer pass of the same bodies (sampling; a report is a violation, silence is not evidence)",
                             "cat_get_processed_command and cat_is_unsolicited_event_buffered are documented as unprotected and are not called",
                             "scheduling points: lock() before acquisition, first io/handler callback inside each cat_service call, thread end; switching is also possible whenever the service thread spins without effect"]}
 
